@@ -336,12 +336,127 @@ def check_C11(v, tier, seed):
     return cov
 
 
+def check_C17(v, tier, seed):
+    args = ["capi-args"] + (["--thorough"] if tier == "thorough" else [])
+    runs = [Run("C17-capi", args)]
+    if tier == "thorough":
+        runs.append(Run("C17-capi-enosys", args + ["--no-openat2"]))
+    concrete = set()
+    classes = {}
+    for r in runs:
+        for c in r.cases:
+            kv = c.kv(c.op[2:])
+            func = c.op[1]
+            fdclass = kv.get("fdclass")
+            msg = None
+            bad_fd = fdclass in ("neg1", "atfdcwd", "min", "neg4096")
+            null_path = kv.get("path") == "null" or (kv.get("path2") == "null" and func in ("rename", "symlink", "hardlink"))
+            classes[(func, fdclass, null_path)] = classes.get((func, fdclass, null_path), 0) + 1
+            if bad_fd or null_path:
+                if c.res[:2] != ["cerr", "22"]:
+                    msg = f"invalid argument accepted or misreported: res={' '.join(c.res)}"
+                elif c.events:
+                    msg = f"system calls were made before the argument was refused: {len(c.events)}"
+            if msg is None and c.res[:1] == ["cerr"]:
+                d = c.kv(c.res[2:])
+                if d.get("id_in_range") != "true" or d.get("consumed_once") != "true":
+                    msg = f"error id malformed: {' '.join(c.res)}"
+            if msg is None and c.fdt != ["same"]:
+                msg = f"descriptor table changed: {' '.join(c.fdt)}"
+            if msg is None:
+                b = c.extra.get("borrowed", [[]])[0]
+                d = c.kv(b)
+                # describe_fd prints fd=.. label=.. kind=.. for root then handle; both must still be open
+                if any(t.startswith("label=badfd") for t in b):
+                    msg = "a borrowed descriptor was closed: " + " ".join(b)
+            if msg is None and "buf" in c.extra:
+                region = unhex(c.extra["buf"][0][0])
+                bufsize = len(region) - 16
+                if region[:8] != b"\xaa" * 8 or region[8 + bufsize:] != b"\xaa" * 8:
+                    msg = "bytes outside the caller's buffer were written"
+            if msg:
+                facts = case_facts(c)
+                facts.update({"kind": "oracle", "oracle": msg, "func": func, "fdclass": fdclass})
+                v.fail(facts, case_replay(c, msg))
+                concrete.add((r.name, c.id))
+    broken = generic_tie(v, runs, concrete)
+    cov = coverage_of(runs, nontrivial=lambda c: True)
+    cov["rule"] = ("every C function x descriptor class {valid,-1,AT_FDCWD,INT_MIN,-4096} x path class {valid,NULL}; "
+                   "procfs base values; mknod/mkdir/creat modes; readlink bodies of length 1..300 x buffer sizes 0..len+8 and NULL "
+                   "with canary bytes around the buffer; distinct = distinct (function, arguments)")
+    cov["tie_mismatches"] = broken
+    cov["argument_classes"] = len(classes)
+    cov["exhaustive"] = True
+    return cov
+
+
+def check_C16(v, tier, seed):
+    n = sizes(tier, 2000, 40000)
+    threads = sizes(tier, 8, 16)
+    runs = [Run("C16-errtable", ["errtable", "--seed", str(seed), "--n", str(n), "--threads", str(threads)])]
+    concrete = set()
+    r = runs[0]
+    stats = {"stores": 0, "takes_some": 0, "takes_none": 0, "threads": threads}
+    for c in r.cases:
+        if c.op != ["errtable_threads"]:
+            continue
+        stored = {}
+        taken = {}
+        for h in c.extra.get("h", []):
+            # h <thread> store <want> <id> | h <thread> take <id> some <errno> <want> | ... none <want>
+            if h[1] == "store":
+                want, i = int(h[2]), int(h[3])
+                stats["stores"] += 1
+                stored.setdefault(i, []).append(want)
+                if not (-2**31 <= i <= -4096):
+                    v.fail({"kind": "oracle", "oracle": f"id {i} out of range"}, case_replay(c, f"error id {i} is not in [INT_MIN, -4096]"))
+                    concrete.add((r.name, c.id))
+            elif h[1] == "take":
+                i = int(h[2])
+                if h[3] == "some":
+                    stats["takes_some"] += 1
+                    taken.setdefault(i, []).append(int(h[4]))
+                else:
+                    stats["takes_none"] += 1
+        for i, wants in stored.items():
+            got = taken.get(i, [])
+            if len(got) != len(wants):
+                v.fail({"kind": "oracle", "oracle": "consumed != stored", "id": i},
+                       case_replay(c, f"id {i}: stored {len(wants)} time(s) but consumed {len(got)} time(s) across threads"))
+                concrete.add((r.name, c.id))
+            elif len(wants) == 1 and got[0] != wants[0] and not (got == [0]):
+                v.fail({"kind": "oracle", "oracle": "wrong errno", "id": i},
+                       case_replay(c, f"id {i}: errno {got[0]} reported, {wants[0]} stored"))
+                concrete.add((r.name, c.id))
+        for i in taken:
+            if i not in stored:
+                v.fail({"kind": "oracle", "oracle": "take of unknown id succeeded", "id": i},
+                       case_replay(c, f"id {i} was never issued but errorinfo returned an error"))
+                concrete.add((r.name, c.id))
+    broken = generic_tie(v, runs, concrete)
+    nseq = sum(len(c.extra.get("t", [])) for c in r.cases)
+    cov = {
+        "evaluations": nseq + stats["stores"] + stats["takes_some"] + stats["takes_none"],
+        "distinct_nontrivial": stats["stores"],
+        "rule": "one sequential history of store/take operations replayed step by step through the Lean table model "
+                "(ids returned by the implementation are fed to the model as the random candidate), and one history of "
+                f"{threads} threads racing for the same ids checked for exactly-once consumption; distinct = issued ids",
+        "samples": [" ".join(x) for c in r.cases for x in c.extra.get("t", [])[:5]] or ["(none)"],
+        "traces_validated_against_impl": sum(1 for c in r.cases if r.verdicts.get(c.id, ("",))[0] == "ok"),
+        "tie_mismatches": broken,
+        "thread_history": stats,
+    }
+    return cov
+
+
 PROPS = {
     "C01": check_C01,
     "C03": check_C03,
     "C04": check_C04,
     "C05": check_C05,
     "C11": check_C11,
+    "C16": check_C16,
+    "C17": check_C17,
 }
 
 
